@@ -135,3 +135,20 @@ def par_errors_ok(L, tasks, started):
                      and forall2(a, b, 0 <= a and a < b and b < len(L),
                                  (okey(tasks[q(a)][0]), q(a)) < (okey(tasks[q(b)][0]), q(b)))
                      and forall(i, 0 <= i < started and task_fails(i), exists(t, 0 <= t < len(L), q(t) == i)))
+
+
+# ---------------------------------------------------------------- C09: shard merge (hit dicts as dict-like records)
+
+@spec
+def hit_score(h):
+    return ite(h.has_score, h.score, ite(h.has__score, h._score, 0.0))
+
+
+@spec
+def hit_id(h):
+    return ite(h.has_id, h.id, 'None')
+
+
+@spec
+def hit_key(h):
+    return (0 - qscore_of(hit_score(h)), hit_id(h))
